@@ -31,18 +31,18 @@ open Pdt Pdt.Resource
 
 /-- the frame table of the current source, literally -/
 theorem withFrames_pinned : Gen.withFrames = [
-  ("read_csv", [("yield from parse_blocks", ["nullcontext(source) if source_is_stream else open(source)"])],
+  ("read_csv", [("yield from parse_blocks", ["nullcontext(<param>) if <local> else open(<param>)"])],
     [], [], []),
   ("write_csv", [("call _table_to_csv",
-    ["open(to, 'w') if isinstance(to, (str, os.PathLike)) else nullcontext(to)"])], [], [], []),
-  ("read_excel", [("yield from parse_blocks", ["closing(row_cell_iter)"])], [], ["read_sheets"], []),
+    ["open(<param>, 'w') if isinstance(<param>, (str, os.PathLike)) else nullcontext(<param>)"])], [], [], []),
+  ("read_excel", [("yield from parse_blocks", ["closing(<local>)"])], [], ["read_sheets"], []),
   ("write_excel", [("call write_excel_func", [])], [], [], []),
   ("read_sheets", [("yield",
-    ["closing(openpyxl.load_workbook(path, read_only=True, data_only=True, keep_links=False))"])], [], [], []),
-  ("write_excel_openpyxl", [("call _append_table_to_openpyxl_worksheet", []), ("call wb.save", [])], [], [], []),
+    ["closing(openpyxl.load_workbook(<param>, read_only=True, data_only=True, keep_links=False))"])], [], [], []),
+  ("write_excel_openpyxl", [("call _append_table_to_openpyxl_worksheet", []), ("call <local>.save", [])], [], [], []),
   ("FileReader.read", [("yield from read_csv", []), ("yield from read_excel", [])], [], [], []),
-  ("IncludeReader.read", [("yield", [])], [], ["self.reader.read"], []),
-  ("queued_load", [("yield from load_proxy.read", [])], [], [], []),
+  ("IncludeReader.read", [("yield", [])], [], ["<param>.reader.read"], []),
+  ("queued_load", [("yield from <local>.read", [])], [], [], []),
   ("load_files", [("yield from queued_load", [])], [], [], [])] := by decide
 
 namespace Spec
@@ -66,9 +66,9 @@ def enclosedByWith (tbl : Table) : Bool :=
   frameOf tbl "read_excel" == .withs [.closingRows] &&
   frameOf tbl "write_csv" == .withs [.openIfPath] &&
   frameOf tbl "write_excel_openpyxl" == .withs [] &&
-  holds tbl "read_excel" "read_sheets" && holds tbl "IncludeReader.read" "self.reader.read" &&
+  holds tbl "read_excel" "read_sheets" && holds tbl "IncludeReader.read" "<param>.reader.read" &&
   hasPoint tbl "FileReader.read" "yield from read_csv" && hasPoint tbl "FileReader.read" "yield from read_excel" &&
-  hasPoint tbl "queued_load" "yield from load_proxy.read" && hasPoint tbl "load_files" "yield from queued_load"
+  hasPoint tbl "queued_load" "yield from <local>.read" && hasPoint tbl "load_files" "yield from queued_load"
 
 end Spec
 
@@ -1165,7 +1165,7 @@ example : Terminal (runAll (writeCsv Gen.withFrames (.path 2) 3) [.next, .throwI
 
 /-- the table of the mutant `f = open(source)` (no `with`) in read_csv -/
 def bareCsvTable : Table :=
-  [("read_csv", [("yield from parse_blocks", [])], ["open(source)"], [], [])]
+  [("read_csv", [("yield from parse_blocks", [])], ["open(<param>)"], [], [])]
 
 theorem bare_open_not_enclosed : ¬ EnclosedByWith bareCsvTable := by decide
 
@@ -1178,8 +1178,8 @@ theorem bare_open_leaks :
 /-- the table of read_sheets without `closing(...)` -/
 def noClosingTable : Table :=
   [("read_sheets", [("yield", [])],
-    ["openpyxl.load_workbook(path, read_only=True, data_only=True, keep_links=False)"], [], []),
-   ("read_excel", [("yield from parse_blocks", ["closing(row_cell_iter)"])], [], ["read_sheets"], [])]
+    ["openpyxl.load_workbook(<param>, read_only=True, data_only=True, keep_links=False)"], [], []),
+   ("read_excel", [("yield from parse_blocks", ["closing(<local>)"])], [], ["read_sheets"], [])]
 
 theorem no_closing_leaks : ¬ EnclosedByWith noClosingTable ∧
     (runAll (readExcel noClosingTable (.path 0) [⟨true, 1, 1⟩]) [.next, .close]).opn = [.lib (.path 0) 0] := by
@@ -1188,9 +1188,9 @@ theorem no_closing_leaks : ¬ EnclosedByWith noClosingTable ∧
 /-- a writer / reader that closes the stream it was given -/
 def closesStreamTable : Table :=
   [("write_csv", [("call _table_to_csv",
-      ["open(to, 'w') if isinstance(to, (str, os.PathLike)) else nullcontext(to)"])], [], [], ["stream.close()"]),
+      ["open(<param>, 'w') if isinstance(<param>, (str, os.PathLike)) else nullcontext(<param>)"])], [], [], ["<local>.close()"]),
    ("read_csv", [("yield from parse_blocks",
-      ["nullcontext(source) if source_is_stream else open(source)"])], [], [], ["f.close()"])]
+      ["nullcontext(<param>) if <local> else open(<param>)"])], [], [], ["<local>.close()"])]
 
 theorem explicit_close_closes_caller_stream : ¬ EnclosedByWith closesStreamTable ∧
     callerClosed (runAll (writeCsv closesStreamTable (.stream 4) 1) [.next, .next]) = [4] ∧
